@@ -459,7 +459,7 @@ pub fn check_def() -> PropertyCheck {
   PropertyCheck {
     id: "C11",
     scenarios: vec![Box::new(C11)],
-    runs: (150_000, 25_000_000),
+    runs: (300_000, 25_000_000),
     rule: "case = publish | share (local and _threads) over a hot subject / cold synchronous source / interval on the simulated executor, with a subscription counter and a tap upstream, + history of <=12 acts (subscribe, unsubscribe k, emit, source complete/error, connect, run tasks, advance clock); non-trivial = >=2 subscribers or the last share subscriber left; distinct = distinct (case, behaviour) hashes",
     assumptions: vec!["re-subscribing to a share() after every subscriber left is not generated (the statement is silent about it)"],
   }
